@@ -21,7 +21,7 @@ EXTRA_TECH = {
     "C10": "; harness kernel object carries the attributes of a real CphotAng; bounded: every energy decade in one batch, identical showers at different places under a location-dependent cloud model, NaN cloud top",
     "C11": "; includes C04's two-chunk sampler obligations and C10's per-event-worker design",
     "C14": "; bounded: the same configuration and seed repeated in one process gives the same table bit for bit",
-    "C15": "; f-string text `<number> <unit>` given a meaning by the contract (serializer / validator pairing); a valid configuration that cannot be written and read back is a failed round trip",
+    "C15": "; reader decodes the file as UTF-8 independently of the locale (effective options of open; child-interpreter witness); --pressuremapcloud month spellings of both commands by exhaustive evaluation of the real click option types; f-string text `<number> <unit>` given a meaning by the contract (serializer / validator pairing); a valid configuration that cannot be written and read back is a failed round trip",
     "C16": "; contract of the command line callback apps/run.py:run (symbolic execution with stub collaborators): the final write happens for tables with and without rows; native witness through click's test runner",
     "C17": "; contract of the command line callback apps/run.py:run: compute() receives the output name and the --write-stages flag whenever a file is wanted; ghost file system keyed by the caller's path, path objects included; a run onto the file of an earlier run must complete (bounded)",
     "C18": "; one HDF5 file holding several grids: writer / writer / reader on h5py stubs with the library's open modes; slice obligations for grids whose axes share one array object; array tokens survive content-preserving conversions; library stubs with the real signatures",
